@@ -248,6 +248,11 @@ fn main() {
                 Err(e) => eprintln!("cannot print: {e:#}"),
             }
         }
+        "c14-point" => {
+            let pkg = args[3].parse::<usize>().ok();
+            let p = props::c14::find_point(&args[2], pkg, &args[4], args[5].parse().unwrap(), args[6].parse().unwrap());
+            println!("{p:?} of {}", props::c14::enum_total());
+        }
         "corpus" => {
             print!("{}", corpus::describe());
         }
